@@ -130,9 +130,15 @@ func main() {
 	fnsOut := flag.String("fns", "", "Coq output for the translated pure functions")
 	ktypesOut := flag.String("ktypes", "", "Coq output for the protobuf struct records of x/stream")
 	keeperOut := flag.String("keeper", "", "Coq output for the translated x/stream keeper and message server")
+	genDir := flag.String("gendir", "", "directory for the translated x/wrkchain and x/beacon files (Generated{Wrkchain,Beacon}{Types,Keeper}.v)")
 	flag.Parse()
 	if *ktypesOut != "" && *keeperOut != "" {
-		writeKeeper(*repo, *ktypesOut, *keeperOut)
+		writeKeeper(*repo, "stream", *ktypesOut, *keeperOut)
+	}
+	if *genDir != "" {
+		for _, m := range []string{"wrkchain", "beacon"} {
+			writeKeeper(*repo, m, filepath.Join(*genDir, modules[m].typesMod+".v"), filepath.Join(*genDir, modules[m].keeperMod+".v"))
+		}
 	}
 	if *fnsOut != "" {
 		writeFns(*repo, *fnsOut)
